@@ -329,7 +329,9 @@ type lockReq struct {
 	depth  int
 }
 
-func (q lockReq) key() string { return fmt.Sprintf("%s|%s|%s|%d|%s", q.root, q.sub, q.mutex, q.mode, q.class) }
+func (q lockReq) key() string {
+	return fmt.Sprintf("%s|%s|%s|%d|%s", q.root, q.sub, q.mutex, q.mode, q.class)
+}
 
 type guardedAccess struct {
 	fn    *ssa.Function
